@@ -205,6 +205,8 @@ static void ec2DblLD(word b[], const word a[], const ec_o* ec, void* stack)
 	// za == 0 или xa == 0? => b <- O
 	if (qrIsZero(ecZ(a, n), ec->f) || qrIsZero(ecX(a), ec->f))
 	{
+		qrSetZero(ecX(b), ec->f);
+		qrSetZero(ecY(b, n), ec->f);
 		qrSetZero(ecZ(b, n), ec->f);
 		return;
 	}
@@ -259,6 +261,8 @@ static void ec2DblALD(word b[], const word a[], const ec_o* ec, void* stack)
 	// xa == 0? => b <- O
 	if (qrIsZero(ecX(a), ec->f))
 	{
+		qrSetZero(ecX(b), ec->f);
+		qrSetZero(ecY(b, n), ec->f);
 		qrSetZero(ecZ(b, n), ec->f);
 		return;
 	}
@@ -340,7 +344,11 @@ static void ec2AddLD(word c[], const word a[], const word b[],
 			ec2DblLD(c, a, ec, stack);
 		// t3 != t4 => a == -b => c <- O
 		else
+		{
+			qrSetZero(ecX(c), ec->f);
+			qrSetZero(ecY(c, n), ec->f);
 			qrSetZero(ecZ(c, n), ec->f);
+		}
 		return;
 	}
 	// t5 <- t1 + t2 [E]
@@ -427,7 +435,11 @@ static void ec2AddALD(word c[], const word a[], const word b[],
 			ec2DblALD(c, b, ec, stack);
 		// t1 != 0 => a == -b => c <- O
 		else
+		{
+			qrSetZero(ecX(c), ec->f);
+			qrSetZero(ecY(c, n), ec->f);
 			qrSetZero(ecZ(c, n), ec->f);
+		}
 		return;
 	}
 	// t3 <- t2 za [C]
